@@ -69,6 +69,17 @@ def streams(tier, seed):
         b["coords"][db.index("e")] = ["5"]
         for f in (ops4 if tier == "thorough" else [rng.choice(ops4)]):
             out.append([obj(0, da, False, 0), b, {"op": "binop", "f": f, "lhs": 0, "rhs": 1, "out": 2}])
+    # … also when only INTERIOR coordinates differ (same length, same first and last value: a linear against a
+    # logarithmic delay list, say)
+    for da in [x for x in l3 if "c" in x] + [["d"], ["a", "d"], ["d", "b"]]:
+        name = "c" if "c" in da else "d"
+        b = obj(1, list(reversed(da)), False, 5)
+        k = list(reversed(da)).index(name)
+        cc = [Fraction(x) for x in b["coords"][k]]
+        mid = len(cc) // 2
+        cc[mid] = cc[mid] + (cc[mid + 1] - cc[mid]) / 3 if mid + 1 < len(cc) else cc[mid] - Fraction(1, 3)
+        b["coords"][k] = [str(x) for x in cc]
+        out.append([obj(0, da, False, 0), b, {"op": "binop", "f": rng.choice(ops4), "lhs": 0, "rhs": 1, "out": 2}])
     # scalars and plain arrays on both sides
     for da in l3:
         for f in ops4:
